@@ -24,8 +24,8 @@ Print Assumptions C18_has_permission.
 
 Theorem C18_combined_filter : forall u perm pf sv o,
   perm <> [] -> pm_check_permission u perm = Some pf -> pm_eval_opt pf sv o = PmT ->
-  pm_spec_admit_sv u perm sv o = true.
-Proof. exact pm_granted_admit. Qed.
+  pm_spec_allow_sv u perm sv o = true.
+Proof. exact pm_granted_allow. Qed.
 Print Assumptions C18_combined_filter.
 
 (* only permitted objects are returned - for all permission lists, queries, inventories, both providers.
@@ -33,7 +33,7 @@ Print Assumptions C18_combined_filter.
 Theorem C18_only_permitted : forall fast u perm tys q inv objs c,
   perm <> [] -> pm_sig_stale tys q = false ->
   pm_filter_targets fast u perm tys q inv = (c, PmOk objs) ->
-  forall o, In o objs -> In o inv /\ pm_spec_admit u perm o = true.
+  forall o, In o objs -> In o inv /\ pm_spec_allow u perm o = true.
 Proof. exact pm_only_permitted. Qed.
 Print Assumptions C18_only_permitted.
 
@@ -47,7 +47,7 @@ Print Assumptions C18_only_permitted_general.
 (* the finding on the model: with `service.name == "p"` on actions/*, type=Host&filter=true is refused, but the
    same request with service=h!p returns every host *)
 Theorem C18_stale_service_variable_refuted :
-  pm_spec_admit pm_ex_user pm_ex_perm pm_ex_w = false /\
+  pm_spec_allow pm_ex_user pm_ex_perm pm_ex_w = false /\
   snd (pm_filter_targets true pm_ex_user pm_ex_perm [PmHost; PmService] (pm_ex_q None) pm_ex_inv) = PmErr PmErrScript /\
   snd (pm_filter_targets true pm_ex_user pm_ex_perm [PmHost; PmService] (pm_ex_q (Some [104;33;112])) pm_ex_inv)
     = PmOk [pm_ex_s; pm_ex_h; pm_ex_w] /\
@@ -62,7 +62,7 @@ Theorem C18_reject_first : forall fast u perm tys q inv,
 Proof. exact pm_reject_first. Qed.
 Print Assumptions C18_reject_first.
 
-(* an object addressed by name (single or in a list) that the permission filter does not admit: error, no objects *)
+(* an object addressed by name (single or in a list) that the permission filter does not allow: error, no objects *)
 Theorem C18_by_name_denied : forall fast u perm tys q inv t n o pf,
   In t tys -> pm_names q t n -> pm_lookup inv t n = Some o ->
   pm_check_permission u perm = Some pf -> (forall sv, pm_eval_opt pf sv o <> PmT) ->
@@ -92,9 +92,9 @@ Theorem C18_paths_agree : forall u perm inv o pf,
 Proof. exact pm_paths_agree. Qed.
 Print Assumptions C18_paths_agree.
 
-(* joins: a joined object is serialised only if objects/query/<its type> is granted and admits it *)
+(* joins: a joined object is serialised only if objects/query/<its type> is granted and allows it *)
 Theorem C18_join_only_permitted : forall u o,
-  pm_join_visible u o = true -> pm_spec_admit u (pm_query_perm (po_type o)) o = true.
+  pm_join_visible u o = true -> pm_spec_allow u (pm_query_perm (po_type o)) o = true.
 Proof. exact pm_join_only_permitted. Qed.
 Print Assumptions C18_join_only_permitted.
 
@@ -116,7 +116,7 @@ Theorem C18_source_facts :
 Proof. exact pm_source_facts. Qed.
 Print Assumptions C18_source_facts.
 
-(* non-vacuity: a user with two matching entries (one filtered), a query by name that is admitted, one denied *)
+(* non-vacuity: a user with two matching entries (one filtered), a query by name that is allowed, one denied *)
 Example C18_nonvacuous :
   let h := {| po_type := PmHost; po_name := [104]; po_short := [104]; po_host := [104]; po_vars := [([111], [108])]; po_hvars := [([111], [108])] |} in
   let w := {| po_type := PmHost; po_name := [119]; po_short := [119]; po_host := [119]; po_vars := []; po_hvars := [] |} in
